@@ -86,6 +86,14 @@ GUARDS = [
   ('lib/lz4.c', 'LZ4_decompress_safe_continue', ['LZ4_STATIC_LINKING_ONLY']),
 ]
 
+# call sites whose literal arguments parameterise a hand-written model: (file, function, callee, defines)
+CALLS = [
+  ('programs/lz4io.c', 'LZ4IO_compressLegacy_internal', 'TPool_create', ['LZ4IO_MULTITHREAD=1']),
+  ('programs/lz4io.c', 'LZ4IO_compressFilename_extRess_MT', 'TPool_create', ['LZ4IO_MULTITHREAD=1']),
+  ('programs/lz4io.c', 'LZ4IO_decodeLegacyStream', 'TPool_create', ['LZ4IO_MULTITHREAD=1']),
+  ('programs/lz4io.c', 'LZ4IO_decompressLZ4F', 'TPool_create', ['LZ4IO_MULTITHREAD=1']),
+]
+
 STRUCT_HEADERS = [('lib/lz4frame.h', ['LZ4F_STATIC_LINKING_ONLY'], ['LZ4F_frameInfo_t', 'LZ4F_preferences_t'])]
 
 
@@ -214,6 +222,32 @@ def main():
         fail('guards: %s' % e)
     g.append('end LZ4V.Gen.Guards')
     if write_if_changed(os.path.join(OUT, 'Guards.lean'), '\n'.join(g) + '\n'): changed.append('Guards')
+    # ---- call-site arguments
+    def strip(n):
+        while n.get('kind') in ('ImplicitCastExpr', 'ParenExpr', 'CStyleCastExpr', 'ConstantExpr') and n.get('inner'): n = n['inner'][0]
+        return n
+    cl = ['-- GENERATED by translate/gen.py: arguments of selected call sites, in source order (none = not an integer literal); do not edit',
+          'namespace LZ4V.Gen.Calls', '']
+    try:
+        for rel, fn, callee, defs in CALLS:
+            fd = load_function(os.path.join(REPO, rel), fn, INCS, defs)
+            sites = []
+            for n in c2lean.walk(fd):
+                if n.get('kind') == 'CallExpr' and n.get('inner'):
+                    c0 = strip(n['inner'][0])
+                    if c0.get('kind') == 'DeclRefExpr' and c0.get('referencedDecl', {}).get('name') == callee:
+                        args = []
+                        for a in n['inner'][1:]:
+                            a = strip(a)
+                            args.append('some %d' % int(a['value']) if a.get('kind') == 'IntegerLiteral' else 'none')
+                        sites.append('[' + ', '.join(args) + ']')
+            if not sites: fail('calls: no call of %s in %s' % (callee, fn))
+            cl.append('/-- %s : calls of %s in %s -/' % (rel, callee, fn))
+            cl.append('def %s_%s : List (List (Option Nat)) := [%s]' % (fn, callee, ', '.join(sites))); cl.append('')
+    except Unsupported as e:
+        fail('calls: %s' % e)
+    cl.append('end LZ4V.Gen.Calls')
+    if write_if_changed(os.path.join(OUT, 'Calls.lean'), '\n'.join(cl) + '\n'): changed.append('Calls')
     print('GEN ok changed=%s' % (','.join(changed) if changed else 'none'))
 
 if __name__ == '__main__':
